@@ -1,5 +1,7 @@
 import Ivg.Lemmas.GenQ
-import Ivg.Gen.Tie
+import Ivg.Gen.Tie.DrawOps
+import Ivg.Gen.Tie.GenerateErrors
+import Ivg.Gen.Tie.Magic
 import Ivg.Obligations
 /-!
 # C19 — the generator's gradient helpers
@@ -206,4 +208,4 @@ end Ivg.Props.C19
   Ivg.Props.C19.setGradient_errors, Ivg.Props.C19.errors_before_writes,
   Ivg.Props.C19.setgradient_layout, Ivg.Props.C19.decode_encode_gradient,
   Ivg.Props.C19.setGradient_rendered,
-  Ivg.Gen.Tie.drawOps_tie, Ivg.Gen.Tie.magic_tie, Ivg.Gen.Tie.errorStrings_tie]
+  Ivg.Gen.Tie.drawOps_tie, Ivg.Gen.Tie.magic_tie, Ivg.Gen.Tie.generateErrors_tie]
